@@ -1,5 +1,10 @@
 """C19 on the real code: BlockSeries[item] against the same item applied to the dense object array of element values,
-with zero elements masked; each element evaluated at most once; negative / infinite orders raise IndexError."""
+with zero elements masked; each element evaluated at most once; negative / infinite orders raise IndexError.
+
+Three-way: the Lean model `Index.getitem` (driver command `index`) is asked for the same item and must give the result shape, the
+source element of every entry of the result (row-major) and the set of evaluated elements that the real code shows; the model's plain
+NumPy rule `Index.select` is compared with NumPy itself on a dense array (`dense` mode), so that a disagreement is attributed to the
+right side.  Finite-dimension-only items (views) are compared element by element through the model's selection on the finite shape."""
 import os, sys; sys.path.insert(0, os.path.dirname(os.path.abspath(__file__)))
 from common import case_rnd, skip
 import sys, json, random, itertools, warnings
@@ -7,18 +12,53 @@ import numpy as np
 warnings.simplefilter("ignore")
 from pymablock.series import BlockSeries, zero
 
-def gen_axis_item(rnd, size, infinite):
+def gen_axis_item(rnd, size, infinite, listlen=None):
     r = rnd.random()
-    if r < 0.35: return rnd.randrange(size) if infinite or rnd.random() < 0.7 else -rnd.randint(1, size)
-    if r < 0.55: return [rnd.randrange(size) for _ in range(rnd.randint(1, 3))]
+    npint = (lambda v: np.int64(v)) if rnd.random() < 0.25 else (lambda v: v)       # NumPy integers are integers too
+    if r < 0.35: return npint(rnd.randrange(size)) if infinite or rnd.random() < 0.7 else npint(-rnd.randint(1, size))
+    if r < 0.55:
+        n = listlen if listlen and rnd.random() < 0.8 else rnd.randint(1, 3)
+        if rnd.random() < 0.15: n = 1                                              # broadcast against longer lists
+        return [rnd.randrange(size) if infinite or rnd.random() < 0.8 else -rnd.randint(1, size) for _ in range(n)]
     if r < 0.9:
-        a = rnd.randrange(size); b = rnd.randint(a, size); st = rnd.choice([None, 1, 2])
-        return slice(rnd.choice([None, a]), b, st)
-    return rnd.choice([-1, [-1, 0], slice(None, None), slice(-1, 2)]) if infinite else slice(None, None)
+        a = rnd.randrange(size); b = rnd.randint(a, size); st = rnd.choice([None, 1, 2, 3])
+        if rnd.random() < 0.1: a, b = b, a                                         # empty selections
+        if not infinite and rnd.random() < 0.2: b = rnd.choice([None, b + 2, -1])  # clipped / counted from the end (finite axes)
+        return slice(rnd.choice([None, npint(a)]), b if b is None else npint(b), st)
+    if infinite:
+        return rnd.choice([-1, [-1, 0], slice(None, None), slice(-1, 2), slice(0, -1), slice(None, -2), slice(np.int64(-1), 2), slice(1, np.int64(-1)),
+                           np.int64(-1)])
+    return rnd.choice([slice(None, None), slice(-2, None), size, -size - 1])       # whole axis, from the end, out of range
 
-def show(it): return [str(x) for x in it]
+def show(it): return [repr(x) for x in it]
+def enc(it):
+    out = []
+    for x in it:
+        if isinstance(x, slice): out.append({"slice": [None if v is None else int(v) for v in (x.start, x.stop, x.step)]})
+        elif isinstance(x, list): out.append({"list": [int(v) for v in x]})
+        else: out.append({"int": int(x)})
+    return out
+def parse_model(line):
+    line = line.strip()
+    if line.startswith("err"): return line
+    if not line.startswith("ok "): raise RuntimeError("driver: " + line)
+    parts = line[3:].split("|")
+    tup = lambda t: tuple(int(v) for v in t.split(",")) if t else ()
+    lst = lambda t: [tup(u) for u in t.split(";")] if t != "" else []
+    shape = tup(parts[0]); n = int(np.prod(shape)) if shape else 1
+    srcs = lst(parts[1]) if n else []
+    if n == 1 and parts[1] == "": srcs = [()]
+    ev = None
+    if len(parts) > 2:
+        ev = lst(parts[2]) if n else []
+        if n == 1 and parts[2] == "": ev = [()]
+    return shape, srcs, ev
 
 def main(seed, ncases, driver, out):
+    import subprocess
+    proc = subprocess.Popen([driver], stdin=subprocess.PIPE, stdout=subprocess.PIPE, text=True)
+    def ask(req):
+        proc.stdin.write(json.dumps(req) + "\n"); proc.stdin.flush(); return proc.stdout.readline()
     rnd = random.Random(seed); failures = []; dist = {}; samples = []; evals = 0; distinct = 0
     for c in range(ncases):
         if skip(c): continue
@@ -33,26 +73,93 @@ def main(seed, ncases, driver, out):
         dense = np.empty(shape + (top,) * ninf, dtype=object)
         for idx in itertools.product(*[range(n) for n in dense.shape]):
             h = sum((k + 2) * (v + 1) for k, v in enumerate(idx)); dense[idx] = zero if h % 4 == 0 else h
-        item = tuple(gen_axis_item(rnd, n, False) for n in shape) + tuple(gen_axis_item(rnd, top, True) for _ in range(ninf))
+        ll = rnd.choice([None, 2, 3])
+        item = tuple(gen_axis_item(rnd, n, False, ll) for n in shape) + tuple(gen_axis_item(rnd, top, True, ll) for _ in range(ninf))
+        if rnd.random() < 0.04: item = item[:-1] if rnd.random() < 0.5 or not shape else item + (0,)      # wrong number of indices
         desc = {"shape": list(shape), "n_infinite": ninf, "item": show(item)}
         if len(samples) < 3: samples.append(desc)
+        # ---- the model's NumPy rule against NumPy, on the dense array
+        ml = ask({"cmd": "index", "shape": list(shape), "dense": list(dense.shape), "item": enc(item)})
+        flat = np.arange(dense.size).reshape(dense.shape)
+        try: npres = flat[item]
+        except IndexError: npres = "err index"
+        except Exception: npres = "err other"
+        md = parse_model(ml)
+        if len(item) != dense.ndim: pass                          # (NumPy pads a short item with full slices; the series rejects it)
+        elif isinstance(npres, str) or isinstance(md, str):
+            if not (isinstance(md, str) and md == npres):
+                failures.append(dict(desc, kind="model-vs-numpy: error class", correspondence_only=True, model=str(md)[:80], numpy=str(npres)[:80]))
+        else:
+            want_src = [int(x) for x in np.asarray(npres).reshape(-1)]
+            got_src = [int(np.ravel_multi_index(t, dense.shape)) for t in md[1]] if dense.ndim else [0] * len(md[1])
+            if tuple(np.shape(npres)) != md[0] or want_src != got_src:
+                failures.append(dict(desc, kind="model-vs-numpy: selection", correspondence_only=True, model=str(md)[:120], numpy=str((np.shape(npres), want_src))[:120]))
+        # ---- finite-dimension-only item: a view
+        if len(item) == len(shape) + ninf and shape and rnd.random() < 0.25:
+            fitem = item[:len(shape)]; dist["view"] = dist.get("view", 0) + 1
+            mv = parse_model(ask({"cmd": "index", "shape": list(shape), "dense": list(shape), "item": enc(fitem)}))
+            try: v = s[fitem]
+            except IndexError:
+                if not isinstance(mv, str): failures.append(dict(desc, kind="view: unexpected IndexError"))
+                evals += 1; continue
+            except Exception as e:
+                failures.append(dict(desc, kind="view: implementation-raises", error=type(e).__name__ + ": " + str(e)[:100])); continue
+            evals += 1; distinct += 1
+            if log: failures.append(dict(desc, kind="view: making the view evaluated elements"))
+            if isinstance(mv, str):
+                # numpy rejects the finite item: the real code may notice only when the view is used
+                try: v[(0,) * len(v.shape) + (1,) * ninf]; failures.append(dict(desc, kind="view: invalid finite item accepted"))
+                except (IndexError, ValueError): pass
+                continue
+            vshape, vsrc, _ = mv
+            if not isinstance(v, BlockSeries) or v.n_infinite != ninf or tuple(v.shape) != vshape:
+                failures.append(dict(desc, kind="view: shape", got=str(getattr(v, "shape", None)), want=str(vshape))); continue
+            positions = list(itertools.product(*[range(n) for n in vshape]))
+            orders = [tuple(rnd.randrange(top) for _ in range(ninf)) for _ in range(2)]
+            for pos, src in zip(positions, vsrc):
+                for o in orders:
+                    w = dense[src + o]
+                    try: g = v[pos + o]
+                    except Exception as e:
+                        failures.append(dict(desc, kind="view: reading an element raises", position=list(map(int, pos + o)), error=type(e).__name__ + ": " + str(e)[:100])); g = w
+                    if not (g is w or g == w): failures.append(dict(desc, kind="view: element differs", position=list(pos + o), got=str(g), want=str(w))); break
+            if len(set(log)) != len(log): failures.append(dict(desc, kind="view: element evaluated twice"))
+            continue
         def bad_order(o):
-            if isinstance(o, slice): return o.stop is None or (isinstance(o.start, int) and o.start < 0)
+            if isinstance(o, slice): return o.stop is None or any(b is not None and b < 0 for b in (o.start, o.stop))
             return bool(np.any(np.asarray(o) < 0))
-        expect_err = any(bad_order(o) for o in item[len(shape):])
+        wrong_count = len(item) != len(shape) + ninf and not (len(item) == len(shape) and ninf)
+        expect_err = any(bad_order(o) for o in item[len(shape):]) or wrong_count
         kind = "error-expected" if expect_err else "value"; dist[kind] = dist.get(kind, 0) + 1
+        mg = parse_model(ask({"cmd": "index", "shape": list(shape), "ninf": ninf, "item": enc(item)}))
+        if len(item) == len(shape) and ninf: mg = None           # (a view: handled above when chosen; otherwise nothing is evaluated)
+        if expect_err and mg is not None and mg != "err index":
+            failures.append(dict(desc, kind="model accepts a negative or infinite order", correspondence_only=True, model=str(mg)[:80]))
         try:
             got = s[item]
         except IndexError as e:
             if not expect_err:
                 try: dense[item]; failures.append(dict(desc, kind="unexpected-IndexError", error=str(e)[:100]))
                 except IndexError: pass                       # numpy rejects it as well (e.g. mismatched list lengths)
+            if mg is not None and mg != "err index":
+                failures.append(dict(desc, kind="model-vs-implementation: the model accepts what the code rejects", correspondence_only=True, model=str(mg)[:80]))
+            if log: failures.append(dict(desc, kind="rejected request evaluated elements", evaluated=[list(map(int, i)) for i in log[:4]]))
             evals += 1; continue
         except Exception as e:
             failures.append(dict(desc, kind="implementation-raises", error=type(e).__name__ + ": " + str(e)[:100])); continue
         evals += 1; distinct += 1
         if expect_err:
             failures.append(dict(desc, kind="negative-or-infinite-order-accepted", got=str(got)[:80])); continue
+        if isinstance(got, BlockSeries): continue                # finite-only item not chosen for the view comparison
+        if isinstance(mg, str):
+            failures.append(dict(desc, kind="model-vs-implementation: the model rejects what the code accepts", correspondence_only=True, model=mg)); continue
+        mshape, msrc, mev = mg
+        if tuple(np.shape(got)) != mshape:
+            failures.append(dict(desc, kind="model-vs-implementation: result shape", correspondence_only=True, model=str(mshape), got=str(np.shape(got))))
+        elif [dense[t] for t in msrc] != list(np.ma.filled(got, zero).reshape(-1) if isinstance(got, np.ma.MaskedArray) else np.asarray(got, dtype=object).reshape(-1)):
+            failures.append(dict(desc, kind="model-vs-implementation: entries", correspondence_only=True))
+        if sorted(set(log)) != mev or len(log) != len(mev):
+            failures.append(dict(desc, kind="model-vs-implementation: evaluated elements", correspondence_only=True, model=str(mev)[:120], got=str(log)[:120]))
         want = dense[item]
         if isinstance(want, np.ndarray):
             g = np.ma.filled(got, zero) if isinstance(got, np.ma.MaskedArray) else np.asarray(got, dtype=object)
@@ -64,7 +171,6 @@ def main(seed, ncases, driver, out):
         if not ok: failures.append(dict(desc, kind="differs-from-numpy", got=str(got)[:120], want=str(want)[:120]))
         if len(set(log)) != len(log): failures.append(dict(desc, kind="element-evaluated-twice"))
         # exactly the selected elements are evaluated: nothing outside the selection (lazy), nothing of it skipped
-        flat = np.arange(dense.size).reshape(dense.shape)
         selected = set(int(x) for x in np.atleast_1d(flat[item]).reshape(-1))
         evaluated = set(int(np.ravel_multi_index(tuple(int(x) for x in idx), dense.shape)) for idx in log)
         if evaluated != selected:
@@ -75,6 +181,7 @@ def main(seed, ncases, driver, out):
         try: s[item]
         except Exception as e: failures.append(dict(desc, kind="repeated-request-raises", error=str(e)[:100]))
         if len(log) != n0: failures.append(dict(desc, kind="cached-element-evaluated-again"))
+    proc.stdin.close()
     json.dump({"evaluations": evals, "cases": ncases, "distinct_nontrivial": distinct, "failures": failures, "distribution": dist, "samples": samples}, open(out, "w"))
 
 if __name__ == "__main__":
